@@ -148,8 +148,11 @@ end generic
 theorem setDirtyFlag_geo (b : Bool) : Geo (setDirtyFlag b) := by
   unfold setDirtyFlag; geo [writeU8_geo, devStrm_geoS]
 
+theorem markDirtyBeforeWrite_geo : Geo markDirtyBeforeWrite := by
+  unfold markDirtyBeforeWrite; geo [setDirtyFlag_geo]
+
 theorem adapterStrm_geoS : StrmGeo adapterStrm := by
-  refine ⟨?_, ?_, ?_⟩ <;> intros <;> simp only [adapterStrm] <;> geo [setDirtyFlag_geo]
+  refine ⟨?_, ?_, ?_⟩ <;> intros <;> simp only [adapterStrm] <;> geo [setDirtyFlag_geo, markDirtyBeforeWrite_geo]
 
 theorem DiskSlice.inner_geoS (s : DiskSlice) : StrmGeo s.inner := by
   unfold DiskSlice.inner; split
@@ -350,7 +353,7 @@ theorem seek_geo (f : FileH) (p : SeekFrom) : Geo (f.seek p) := by
   unfold seek; geo [seekWalk_geo]
 
 theorem truncate_geo (f : FileH) : Geo f.truncate := by
-  unfold truncate; geo [truncateClusterChain_geo, freeClusterChain_geo]
+  unfold truncate; geo [truncateClusterChain_geo, freeClusterChain_geo, setDirtyFlag_geo]
 
 theorem extentsLoop_geo (fs) : ∀ k it left acc, Geo (extentsLoop fs k it left acc) := by
   intro k
